@@ -1,64 +1,64 @@
 // REPLAY for property C02, harness k_dispatch (unit K-dispatch, engine kani)
 // Failed obligations:
-//   OBL:dispatch.no_final_flush_block_while_output_is_pending [C02 C01]  at miniz_oxide/src/deflate/core.rs:2999:9 in function deflate::core::flush_block
+//   OBL:dispatch.no_final_flush_block_while_output_is_pending [C02 C01]  at miniz_oxide/src/deflate/core.rs:3026:9 in function deflate::core::flush_block
 // no-failing-input-found: the verifier reported the failed obligation without a concrete model.
 // Verifier output (tail):
-//   Check 1341: memcmp.pointer_dereference.4
+//   Check 1347: memcmp.pointer_dereference.4
 //   	 - Status: SUCCESS
 //   	 - Description: "dereference failure: dead object"
 //   	 - Location: <builtin-library-memcmp>:27 in function memcmp
 //   
-//   Check 1342: memcmp.pointer_dereference.5
+//   Check 1348: memcmp.pointer_dereference.5
 //   	 - Status: SUCCESS
 //   	 - Description: "dereference failure: pointer outside object bounds"
 //   	 - Location: <builtin-library-memcmp>:27 in function memcmp
 //   
-//   Check 1343: memcmp.pointer_dereference.6
+//   Check 1349: memcmp.pointer_dereference.6
 //   	 - Status: SUCCESS
 //   	 - Description: "dereference failure: invalid integer address"
 //   	 - Location: <builtin-library-memcmp>:27 in function memcmp
 //   
-//   Check 1344: memcmp.pointer_dereference.7
+//   Check 1350: memcmp.pointer_dereference.7
 //   	 - Status: SUCCESS
 //   	 - Description: "dereference failure: pointer NULL"
 //   	 - Location: <builtin-library-memcmp>:27 in function memcmp
 //   
-//   Check 1345: memcmp.pointer_dereference.8
+//   Check 1351: memcmp.pointer_dereference.8
 //   	 - Status: SUCCESS
 //   	 - Description: "dereference failure: pointer invalid"
 //   	 - Location: <builtin-library-memcmp>:27 in function memcmp
 //   
-//   Check 1346: memcmp.pointer_dereference.9
+//   Check 1352: memcmp.pointer_dereference.9
 //   	 - Status: SUCCESS
 //   	 - Description: "dereference failure: deallocated dynamic object"
 //   	 - Location: <builtin-library-memcmp>:27 in function memcmp
 //   
-//   Check 1347: memcmp.pointer_dereference.10
+//   Check 1353: memcmp.pointer_dereference.10
 //   	 - Status: SUCCESS
 //   	 - Description: "dereference failure: dead object"
 //   	 - Location: <builtin-library-memcmp>:27 in function memcmp
 //   
-//   Check 1348: memcmp.pointer_dereference.11
+//   Check 1354: memcmp.pointer_dereference.11
 //   	 - Status: SUCCESS
 //   	 - Description: "dereference failure: pointer outside object bounds"
 //   	 - Location: <builtin-library-memcmp>:27 in function memcmp
 //   
-//   Check 1349: memcmp.pointer_dereference.12
+//   Check 1355: memcmp.pointer_dereference.12
 //   	 - Status: SUCCESS
 //   	 - Description: "dereference failure: invalid integer address"
 //   	 - Location: <builtin-library-memcmp>:27 in function memcmp
 //   
 //   
 //   SUMMARY:
-//    ** 1 of 1342 failed (8 unreachable)
+//    ** 1 of 1348 failed (8 unreachable)
 //   
 //    ** 7 of 7 cover properties satisfied
 //   
 //   Failed Checks: "OBL:dispatch.no_final_flush_block_while_output_is_pending [C02 C01]"
-//    File: "miniz_oxide/src/deflate/core.rs", line 2999, in deflate::core::flush_block
+//    File: "miniz_oxide/src/deflate/core.rs", line 3026, in deflate::core::flush_block
 //   
 //   VERIFICATION:- FAILED
-//   Verification Time: 93.88564s
+//   Verification Time: 77.38732s
 //   
 //   Manual Harness Summary:
 //   Verification failed for - deflate::core::verif_deflate_core::k_dispatch
